@@ -153,12 +153,21 @@ fn expr_cands(e: &Expr, emit: &mut dyn FnMut(Expr)) {
 
 /// Greedy minimisation: `fails(p)` must be true for `start`
 pub fn minimize(start: &BlockStmt, fails: &mut dyn FnMut(&BlockStmt) -> bool, max_tests: usize) -> BlockStmt {
+    minimize_impl(start, fails, max_tests, true)
+}
+
+/// like `minimize`, without the U1 guard (for checks that judge memory safety only)
+pub fn minimize_any(start: &BlockStmt, fails: &mut dyn FnMut(&BlockStmt) -> bool, max_tests: usize) -> BlockStmt {
+    minimize_impl(start, fails, max_tests, false)
+}
+
+fn minimize_impl(start: &BlockStmt, fails: &mut dyn FnMut(&BlockStmt) -> bool, max_tests: usize, guard_u1: bool) -> BlockStmt {
     let mut cur = start.clone();
     let mut tests = 0;
     // U1: a reduced program must still end with an expression statement if the original did,
     // otherwise a metamorphic check could fail for a reason the documentation does not fix
     let ends_with_expr = |p: &BlockStmt| matches!(p.last(), Some(Stmt::Expr(_)));
-    let keep_u1 = ends_with_expr(start);
+    let keep_u1 = guard_u1 && ends_with_expr(start);
     loop {
         let mut progressed = false;
         let size = size_block(&cur);
